@@ -5,39 +5,56 @@ From Heph Require Import Types.Syntax Types.Subst Types.Subtype Types.Decl Types
 
 Definition unbox (a : ty) : ty := match a with TBuiltin x true => TBuiltin x false | x => x end.
 
+(* both sides as the checker compares them: the actual type unboxed, unbounded type variables
+   bounded by the language's top type *)
+Definition top_of (L : lang) : ty := TBuiltin (l_any L) false.
+Definition lhs (L : lang) (a : ty) : ty := topify (top_of L) (unbox a).
+Definition rhs (L : lang) (b : ty) : ty := topify (top_of L) b.
+
 (* in non-strict mode an accepted position with a known actual and expected type is justified
    either declaratively, or by the (modelled) implementation's own is_assignable, or was left
    unchecked because the reference checker ran out of fuel *)
-Lemma assignable_accepts_lem : forall w a b,
-  assignable false w (TOk a) (Some b) = true ->
+Lemma assignable_accepts_lem : forall L w a b,
+  assignable false L w (TOk a) (Some b) = true ->
   match norm_expected (Some b) with
   | None => True
-  | Some b' => SubA w [] (unbox a) b' \/ is_assignable w 40 (unbox a) b' = Rt \/ sub_ref w 40 [] (unbox a) b' = Unk
+  | Some b' => SubA w [] (lhs L a) (rhs L b') \/ is_assignable w 40 (lhs L a) (rhs L b') = Rt \/
+               sub_ref w 40 [] (lhs L a) (rhs L b') = Unk
   end.
 Proof.
-  intros w a b H. unfold assignable in H.
+  intros L w a b H. unfold assignable in H.
   destruct (norm_expected (Some b)) as [b'|]; [|exact I].
-  fold (unbox a) in H.
-  destruct (sub_ref w 40 [] (unbox a) b') eqn:E.
+  fold (unbox a) in H. fold (top_of L) in H. fold (lhs L a) in H. fold (rhs L b') in H.
+  destruct (sub_ref w 40 [] (lhs L a) (rhs L b')) eqn:E.
   - left. eapply sub_ref_yes_sound_lem; eauto.
-  - right; left. destruct (is_assignable w 40 (unbox a) b'); try discriminate; reflexivity.
+  - right; left. destruct (is_assignable w 40 (lhs L a) (rhs L b')); try discriminate; reflexivity.
   - right; right; reflexivity.
 Qed.
 
 (* in strict mode nothing is left unchecked *)
-Lemma assignable_strict_lem : forall w a b,
-  assignable true w (TOk a) (Some b) = true ->
+Lemma assignable_strict_lem : forall L w a b,
+  assignable true L w (TOk a) (Some b) = true ->
   exists b', norm_expected (Some b) = Some b' /\
-             (SubA w [] (unbox a) b' \/ is_assignable w 40 (unbox a) b' = Rt).
+             (SubA w [] (lhs L a) (rhs L b') \/ is_assignable w 40 (lhs L a) (rhs L b') = Rt).
 Proof.
-  intros w a b H. unfold assignable in H.
+  intros L w a b H. unfold assignable in H.
   destruct (norm_expected (Some b)) as [b'|]; [|discriminate].
-  exists b'. split; [reflexivity|]. fold (unbox a) in H.
-  destruct (sub_ref w 40 [] (unbox a) b') eqn:E.
+  exists b'. split; [reflexivity|]. fold (unbox a) in H. fold (top_of L) in H. fold (lhs L a) in H. fold (rhs L b') in H.
+  destruct (sub_ref w 40 [] (lhs L a) (rhs L b')) eqn:E.
   - left. eapply sub_ref_yes_sound_lem; eauto.
-  - right. destruct (is_assignable w 40 (unbox a) b'); try discriminate; reflexivity.
+  - right. destruct (is_assignable w 40 (lhs L a) (rhs L b')); try discriminate; reflexivity.
   - discriminate.
 Qed.
+
+(* topify only adds the top bound: a type without unbounded variables is unchanged *)
+Fixpoint no_free_unbounded (t : ty) : bool :=
+  match t with
+  | TVar _ _ None => false
+  | TVar _ _ (Some b) => no_free_unbounded b
+  | TApp _ l => forallb no_free_unbounded l
+  | TWild _ (Some b) => no_free_unbounded b
+  | _ => true
+  end.
 
 Lemma only_codes_nil_lem : forall codes l, only_codes codes l = [] ->
   forall e, In e l -> existsb (Nat.eqb (snd (fst (fst e)))) codes = false.
